@@ -21,11 +21,12 @@ def sjob(prop, shape, P, bound, prec='d', variant='s', **cfg):
     return {'engine': 'mcsched/mcsched.c', 'variant': variant, 'prec': prec, 'args': args}
 
 
-def sched_catalogue(prop, tier, drv=0, precs_extra=True):
+def sched_catalogue(prop, tier, drv=0, precs_extra=True, light=False):
     """Engine S job catalogue K1..K13 (DESIGN.md 2.1) for one property"""
     j = []
-    b2 = 2
     q = tier == 'quick'
+    # the full bounds are explored by the C03/C04 checks; the other properties re-run the catalogue with their own oracle, at bound 1 in the quick tier
+    b2 = 1 if (light and q) else 2
     # K1 chains: pure linear pipeline
     for n in (3, 4, 5):
         j.append(sjob(prop, 'chain%d' % n, 2, b2, drv=drv))
@@ -77,14 +78,66 @@ def sched_catalogue(prop, tier, drv=0, precs_extra=True):
     return j
 
 
+def pjob(prop, n, P, w, relax, slices=1, log2cap=21):
+    return [{'engine': 'mcproto/mcproto.c', 'variant': 'p', 'prec': 'd', 'opt': '-O2',
+             'args': ['--prop', prop, '--n', str(n), '--P', str(P), '--w', str(w), '--relax', str(relax), '--log2cap', str(log2cap), '--slice', '%d/%d' % (i, slices)]} for i in range(slices)]
+
+
+def proto_jobs(prop, tier):
+    """Engine P: all postordered forests x panel size x relaxation x P, all reachable protocol states"""
+    j = []
+    q = tier == 'quick'
+    for w in (1, 2, 3, 4, 6):
+        for r in (1, 2, 3):
+            for n in range(1, (6 if q else 8) + 1):
+                big = n >= 7
+                j += pjob(prop, n, 2, w, r, slices=(16 if big else (4 if n == 6 else 1)), log2cap=(23 if big else 21))
+            for n in range(1, (5 if q else 7) + 1):
+                big = n >= 6
+                j += pjob(prop, n, 3, w, r, slices=(16 if big else (4 if n == 5 else 1)), log2cap=(24 if n >= 7 else 22 if n >= 5 else 21))
+    return j
+
+
+def forest_conformance_jobs(prop, tier):
+    """Engine S on the matrices I + sum e_j e_parent(j)^T (and their symmetric-pattern versions) of EVERY postordered forest with n <= 4 (thorough 5):
+    every explored execution of the real workers is replayed on the protocol model (traces_validated)"""
+    def forests(n):
+        out = []
+        def gen(k, par):
+            if k == n:
+                size = [1] * (n + 1); first = list(range(n + 1))
+                for jj in range(n):
+                    p = par[jj]; size[p] += size[jj]; first[p] = min(first[p], first[jj])
+                if all(first[jj] == jj - size[jj] + 1 for jj in range(n)):
+                    out.append(''.join(str(p) if p < 10 else 'r' for p in par))
+                return
+            for p in range(k + 1, n + 1):
+                gen(k + 1, par + [p])
+        gen(0, [])
+        return out
+    j = []
+    nmax = 4 if tier == 'quick' else 5
+    for n in range(2, nmax + 1):
+        for f in forests(n):
+            fs = f.replace(str(n), 'r') if n < 10 else f
+            for kind in ('forest', 'sforest'):
+                for (w, r) in ((1, 1), (4, 2)):
+                    if tier == 'quick' and kind == 'sforest' and (w, r) == (4, 2) and n == 4:
+                        continue
+                    j.append(sjob(prop, '%s:%s' % (kind, fs), 2, 1 if (tier == 'quick' and n == 4) else 2, w=w, relax=r, vk=1))
+            if tier != 'quick' and n <= 4:
+                j.append(sjob(prop, 'sforest:%s' % fs, 3, 1, vk=1))
+    return j
+
+
 def jobs_C03(tier):
-    j = sched_catalogue('C03', tier, drv=0)
+    j = sched_catalogue('C03', tier, drv=0) + proto_jobs('C03', tier) + forest_conformance_jobs('C03', tier)
     j += [sjob('C03', 'tree7', 2, 1, drv=1), sjob('C03', 'lower5', 2, 1, drv=2, w=4, ms=4)]
     return j
 
 
 def jobs_C04(tier):
-    j = sched_catalogue('C04', tier, drv=0)
+    j = sched_catalogue('C04', tier, drv=0) + proto_jobs('C04', tier) + forest_conformance_jobs('C04', tier)
     j += [sjob('C04', 'tree7', 2, 1, drv=1), sjob('C04', 'fork3', 3, 2, drv=2)]
     return j
 
@@ -111,7 +164,7 @@ def jobs_C02(tier):
         j += seq('C02', 'q', 'd', 4, 'quick', forced=1)
         j += seq('C02', 'ql', 'd', 3, 'full', forced=1)
         j += seq('C02', 'qv', 'd', 4, 'quick', forced=0)
-    j += sched_catalogue('C02', tier, drv=0)
+    j += sched_catalogue('C02', tier, drv=0, light=True)
     return j
 
 
@@ -132,7 +185,7 @@ def jobs_C09(tier):
             j += seq('C09', 'q', p, 0, 'full', family='cat')
         j += seq('C09', 'q', 'd', 4, 'quick', forced=1)
         j += seq('C09', 'ql', 'd', 3, 'full', forced=1)
-    j += sched_catalogue('C09', tier, drv=0)
+    j += sched_catalogue('C09', tier, drv=0, light=True)
     return j
 
 
@@ -157,7 +210,7 @@ def jobs_C01(tier):
             j += seq('C01', 'q', p, 4, 'quick')
             j += seq('C01', 'q', p, 0, 'full', family='cat')
             j += seq('C01', 'qt', p, 3, 'quick')
-    j += sched_catalogue('C01', tier, drv=1)
+    j += sched_catalogue('C01', tier, drv=1, light=True)
     return j
 
 
@@ -178,7 +231,7 @@ def jobs_C05(tier):
             j += seq('C05', 'qh', p, 0, 'full', family='cat')
         j += seq('C05', 'qh', 'd', 4, 'full', forced=0)
         j += seq('C05', 'ql', 'd', 3, 'full', forced=1)
-    j += sched_catalogue('C05', tier, drv=0)
+    j += sched_catalogue('C05', tier, drv=0, light=True)
     return j
 
 
